@@ -100,6 +100,9 @@ def pendingSpec (S : Nat) (ops : List Op) : List Bytes :=
 /-- the accepted-appends predicate at the end of a history -/
 def acceptsAfter (S : Nat) (ops : List Op) (p : Bytes) : Prop := (Spec.run S Spec.init ops).accepts S p
 
+instance (S : Nat) (ops : List Op) (p : Bytes) : Decidable (acceptsAfter S ops p) := by
+  unfold acceptsAfter; infer_instance
+
 /-! `pendingSpec` really is "accepted appends since the last checkpoint": -/
 
 theorem run_snoc (H : Bytes → Bytes) (w : Wal) (ops : List Op) (op : Op) :
@@ -119,10 +122,12 @@ theorem pendingSpec_checkpoint (S : Nat) (ops : List Op) :
 theorem pendingSpec_append (S : Nat) (ops : List Op) (p : Bytes) :
     pendingSpec S (ops ++ [.append p]) =
       if acceptsAfter S ops p then pendingSpec S ops ++ [p] else pendingSpec S ops := by
-  unfold pendingSpec acceptsAfter
+  unfold pendingSpec
   rw [Spec.run_snoc]
   simp only [Spec.step]
-  split <;> simp
+  by_cases h : acceptsAfter S ops p
+  · rw [if_pos h, if_pos (show (Spec.run S Spec.init ops).accepts S p from h)]; simp
+  · rw [if_neg h, if_neg (show ¬ (Spec.run S Spec.init ops).accepts S p from h)]
 
 theorem pendingSpec_read (S : Nat) (ops : List Op) (op : Op)
     (h : op = .pending ∨ (∃ k, op = .after k) ∨ op = .reopen ∨ op = .stats) :
@@ -203,24 +208,22 @@ theorem recordsAfter_of_layout (H : Bytes → Bytes) (hH : ∀ b, (H b).length =
   rw [scan_exact H hH _ _ _ L]
   simp only
   rw [getLast_seq recs w.seq hseq, hpend, ← hwh]
-  have e : ({ w with seq := w.seq, pend := w.pend, wh := w.wh } : Wal) = w := rfl
-  rw [e]
-  cases hro : w.ro with
-  | true => simp
-  | false =>
+  show Except.ok ((if w.ro = true then w else maybeSentinel w), _) = _
+  by_cases hro : w.ro = true
+  · rw [if_pos hro]
+  · rw [if_neg hro]
     have hs := L.sentinel
     rw [← hwh] at hs
     have hfit := L.fit
     rw [← hwh] at hfit
-    rw [maybeSentinel_id w hro hfit hs]
-    simp
+    rw [maybeSentinel_id w (by simpa using hro) hfit hs]
 
 /-- `open_internal` on the bytes and header fields of a state with a layout gives that state back
     (up to `checkpoint_head mod S`, `appends_since_checkpoint = 0` and the requested mode) -/
 theorem open_of_layout (H : Bytes → Bytes) (hH : ∀ b, (H b).length = 32) (w : Wal)
     (recs : List Rec) (L : Layout H w.S w.region recs) (hwh : w.wh = sizeSum recs)
     (hseq : ∀ r, recs.getLast? = some r → r.seq = w.seq) (hnil : recs = [] → w.seq = w.ckseq)
-    (hpend : pendingSize w.ckseq recs = w.pend) (hro : w.ro = false) (c : Nat) (ro' : Bool) :
+    (hpend : pendingSize w.ckseq recs = w.pend) (c : Nat) (ro' : Bool) :
     openFromHeader H w.S w.region w.ckseq c ro' =
       .ok { w with ckh := c % w.S, appends := 0, ro := ro' } := by
   unfold openFromHeader
@@ -229,11 +232,7 @@ theorem open_of_layout (H : Bytes → Bytes) (hH : ∀ b, (H b).length = 32) (w 
   have hsq : (recs.getLast?.map (·.seq)).getD w.ckseq = w.seq := by
     cases hl : recs.getLast? with
     | none =>
-      have : recs = [] := by
-        cases recs with
-        | nil => rfl
-        | cons a l => simp [List.getLast?_cons_cons] at hl; exact absurd hl (by
-            cases l <;> simp [List.getLast?])
+      have : recs = [] := List.getLast?_eq_none_iff.mp hl
       simp [hnil this]
     | some r => simp [hseq r hl]
   rw [hsq, hpend, ← hwh]
@@ -263,9 +262,7 @@ theorem append_unfold (H : Bytes → Bytes) (w : Wal) (p : Bytes) (hro : w.ro = 
                seq := w.seq + 1, appends := w.appends + 1 }, w.seq + 1) := by
   unfold append
   simp only [hro, Bool.false_eq_true, if_false]
-  rw [if_neg h1]
-  dsimp only
-  rw [if_neg h2, if_neg h3, if_neg h4]
+  rw [if_neg h1, if_neg h2, if_neg h3, if_neg h4]
 
 /-- writing one record after the records `pre` and then the sentinel gives the layout `pre ++ [r]` -/
 theorem sentinel_after_write (H : Bytes → Bytes) (hH : ∀ b, (H b).length = 32) (w1 : Wal)
@@ -329,7 +326,8 @@ theorem append_ok (H : Bytes → Bytes) (hH : ∀ b, (H b).length = 32) (S : Nat
                pend := w.pend + (ENTRY_HEADER_SIZE + p.length),
                seq := w.seq + 1, appends := w.appends + 1 }
       w.region [] { seq := w.seq + 1, payload := p } hro L.len rfl
-      (by simp only [sizeSum_nil, hsz]) (by simp only [sizeSum_nil, hsz]; omega)
+      (by show 0 + (ENTRY_HEADER_SIZE + p.length) = 0 + (ENTRY_HEADER_SIZE + p.length); rfl)
+      (by show 0 + (ENTRY_HEADER_SIZE + p.length) ≤ w.S; omega)
       (by show w.pend + _ ≤ 0 + _; omega) (by simp) (by simp) hrok
     refine ⟨_, by rw [e], ?_⟩
     have hw' : s.wh + (ENTRY_HEADER_SIZE + p.length) > w.S := by
@@ -338,15 +336,18 @@ theorem append_ok (H : Bytes → Bytes) (hH : ∀ b, (H b).length = 32) (S : Nat
       List.length_nil, Nat.add_zero]
     rw [hpnil] at hseq
     simp only [List.length_nil, Nat.add_zero] at hseq
-    refine ⟨rfl, by simpa using LR, by simp [hsz], hro, ?_, ?_, hinv.ckseq, ?_, by simp, ?_, ?_⟩
+    rw [hseq] at LR
+    refine ⟨rfl, by simpa using LR, by simp [Rec.size], hro, ?_, ?_, hinv.ckseq, by simp, by simp,
+      ?_, ?_⟩
     · show w.pend + _ = _
-      rw [hpend, hp0]; simp [hsz]
+      rw [hpend, hp0]; simp [Rec.size]
     · show w.seq + 1 = _
       simp [hseq]
-    · simp [hseq]
     · intro r hr
       simp at hr
       rw [← hr]
+      show s.ckseq + 1 = w.seq + 1
+      rw [hseq]
     · show w.seq + 1 < 2^64
       rw [hseq]; simpa [Spec.seq, hpnil] using hb
   · -- no wrap: the record goes to the write head
@@ -357,7 +358,9 @@ theorem append_ok (H : Bytes → Bytes) (hH : ∀ b, (H b).length = 32) (S : Nat
                pend := w.pend + (ENTRY_HEADER_SIZE + p.length),
                seq := w.seq + 1, appends := w.appends + 1 }
       w.region (s.old ++ s.pend) { seq := w.seq + 1, payload := p } hro L.len
-      (by rw [hwh]) (by rw [hsz, hwh]) (by rw [hsz, ← hwh]; omega)
+      (by rw [hwh])
+      (by show w.wh + (ENTRY_HEADER_SIZE + p.length) = _ + (ENTRY_HEADER_SIZE + p.length); rw [hwh])
+      (by show _ + (ENTRY_HEADER_SIZE + p.length) ≤ w.S; rw [← hwh]; omega)
       (by show w.pend + _ ≤ w.wh + _; omega) L.bytes L.ok hrok
     refine ⟨_, by rw [e], ?_⟩
     have hw' : ¬ s.wh + (ENTRY_HEADER_SIZE + p.length) > w.S := by
@@ -367,9 +370,9 @@ theorem append_ok (H : Bytes → Bytes) (hH : ∀ b, (H b).length = 32) (S : Nat
     refine ⟨rfl, by simpa [List.append_assoc] using LR, ?_, hro, ?_, ?_, hinv.ckseq, ?_, hinv.oseq,
       ?_, ?_⟩
     · show w.wh + _ = _
-      rw [hwh]; simp [hsz]; omega
+      rw [hwh]; simp [Rec.size]; omega
     · show w.pend + _ = _
-      rw [hpend]; simp [hsz]
+      rw [hpend]; simp [Rec.size]
     · show w.seq + 1 = _
       rw [hseq]; simp; omega
     · rw [List.map_append, hinv.pseq, List.length_append, List.length_singleton,
@@ -393,7 +396,6 @@ theorem append_rej (H : Bytes → Bytes) (S : Nat) (w : Wal) (s : Spec) (hinv : 
   by_cases h1 : p.length > 4294967295
   · exact ⟨_, by rw [if_pos h1], Or.inl rfl⟩
   · rw [if_neg h1]
-    dsimp only
     by_cases h2 : ENTRY_HEADER_SIZE + p.length > w.S
     · exact ⟨_, by rw [if_pos h2], Or.inr (Or.inl rfl)⟩
     · rw [if_neg h2]
@@ -419,13 +421,19 @@ theorem checkpoint_ok (H : Bytes → Bytes) (S : Nat) (w : Wal) (s : Spec) (hinv
   have hfit := L.fit
   rw [← hinv.wh] at hs hfit
   unfold checkpoint
-  simp only [hinv.ro, Bool.false_eq_true, if_false]
-  rw [maybeSentinel_id _ hinv.ro hfit hs]
+  have hc : ¬ (w.ro = true) := by simp [hinv.ro]
+  rw [if_neg hc]
+  dsimp only
+  have e : maybeSentinel { w with ckh := w.wh, pend := 0, appends := 0, ckseq := w.seq }
+      = { w with ckh := w.wh, pend := 0, appends := 0, ckseq := w.seq } :=
+    maybeSentinel_id _ hinv.ro hfit hs
+  rw [e]
   refine ⟨_, rfl, rfl, ?_⟩
   simp only [Spec.step, Spec.seq]
   refine ⟨rfl, by simpa using L, by simpa using hinv.wh, hinv.ro, rfl, by simpa using hinv.seq,
     hinv.seq, by simp, ?_, by simpa using hinv.last, hinv.bound⟩
   intro r hr
+  show r.seq ≤ s.ckseq + s.pend.length
   rcases List.mem_append.mp hr with h | h
   · have := hinv.oseq r h; omega
   · have hm : r.seq ∈ s.pend.map (·.seq) := List.mem_map_of_mem h
@@ -449,19 +457,19 @@ theorem pendingRecords_inv (H : Bytes → Bytes) (hH : ∀ b, (H b).length = 32)
 
 theorem open_inv (H : Bytes → Bytes) (hH : ∀ b, (H b).length = 32) (S : Nat) (w : Wal)
     (s : Spec) (hinv : Inv H S w s) (ro' : Bool) :
-    openFromHeader H w.S w.region w.ckseq w.ckh ro' =
-      .ok { w with ckh := w.ckh % w.S, appends := 0, ro := ro' } := by
+    openFromHeader H S w.region w.ckseq w.ckh ro' =
+      .ok { w with ckh := w.ckh % S, appends := 0, ro := ro' } := by
   have hS := hinv.hS
   subst hS
-  refine open_of_layout H hH w _ hinv.layout hinv.wh hinv.last ?_ hinv.pendingSize hinv.ro _ _
+  refine open_of_layout H hH w _ hinv.layout hinv.wh hinv.last ?_ hinv.pendingSize _ _
   intro hnil
   have : s.pend = [] := (List.append_eq_nil_iff.mp hnil).2
   rw [hinv.seq, hinv.ckseq, this]; rfl
 
 /-- the invariant does not mention `checkpoint_head`, `appends_since_checkpoint` -/
 theorem Inv.congr (H : Bytes → Bytes) (S : Nat) (w : Wal) (s : Spec) (hinv : Inv H S w s)
-    (c a : Nat) : Inv H S { w with ckh := c, appends := a } s :=
-  ⟨hinv.hS, hinv.layout, hinv.wh, hinv.ro, hinv.pend, hinv.seq, hinv.ckseq, hinv.pseq, hinv.oseq,
+    (c a : Nat) : Inv H S { w with ckh := c, appends := a, ro := false } s :=
+  ⟨hinv.hS, hinv.layout, hinv.wh, rfl, hinv.pend, hinv.seq, hinv.ckseq, hinv.pseq, hinv.oseq,
     hinv.last, hinv.bound⟩
 
 /-! ### induction over histories -/
@@ -469,33 +477,35 @@ theorem Inv.congr (H : Bytes → Bytes) (S : Nat) (w : Wal) (s : Spec) (hinv : I
 theorem inv_step (H : Bytes → Bytes) (hH : ∀ b, (H b).length = 32) (S : Nat) (w : Wal) (s : Spec)
     (hinv : Inv H S w s) (op : Op) (hwf : op.wf) (hb : s.seq + 1 < 2^64) :
     Inv H S (step H w op) (s.step S op) := by
+  have hS := hinv.hS
+  subst hS
   cases op with
   | append p =>
-    by_cases hacc : s.accepts S p
-    · obtain ⟨w', e, h'⟩ := append_ok H hH S w s hinv p hwf hb hacc
+    by_cases hacc : s.accepts w.S p
+    · obtain ⟨w', e, h'⟩ := append_ok H hH w.S w s hinv p hwf hb hacc
       simp only [step, e]; exact h'
-    · obtain ⟨e, he, _⟩ := append_rej H S w s hinv p hacc
-      simp only [step, he, Spec.step, if_neg hacc]; exact hinv
+    · obtain ⟨e, he, _⟩ := append_rej H w.S w s hinv p hacc
+      simp only [step, he, Spec.step]; rw [if_neg hacc]; exact hinv
   | checkpoint =>
-    obtain ⟨w', e, _, h'⟩ := checkpoint_ok H S w s hinv
+    obtain ⟨w', e, _, h'⟩ := checkpoint_ok H w.S w s hinv
     simp only [step, e]; exact h'
   | pending =>
-    simp only [step, pendingRecords_inv H hH S w s hinv, Spec.step]; exact hinv
+    simp only [step, pendingRecords_inv H hH w.S w s hinv, Spec.step]; exact hinv
   | after k =>
-    simp only [step, recordsAfter_inv H hH S w s hinv, Spec.step]; exact hinv
+    simp only [step, recordsAfter_inv H hH w.S w s hinv, Spec.step]; exact hinv
   | reopen =>
-    have e := open_inv H hH S w s hinv false
+    have e := open_inv H hH w.S w s hinv false
     simp only [step, e, Spec.step]
-    have := Inv.congr H S w s hinv (w.ckh % w.S) 0
-    rw [← hinv.ro]
-    exact this
+    exact Inv.congr H w.S w s hinv (w.ckh % w.S) 0
   | stats => exact hinv
 
 theorem Spec.seq_step (S : Nat) (s : Spec) (op : Op) : (s.step S op).seq ≤ s.seq + 1 := by
-  cases op <;> simp only [Spec.step, Spec.seq]
-  · split <;> simp
-  · simp
-  all_goals omega
+  cases op with
+  | append p =>
+    simp only [Spec.step]
+    split <;> simp only [Spec.seq, List.length_append, List.length_singleton] <;> omega
+  | checkpoint => simp only [Spec.step, Spec.seq, List.length_nil]; omega
+  | _ => simp only [Spec.step]; omega
 
 theorem inv_run (H : Bytes → Bytes) (hH : ∀ b, (H b).length = 32) (S : Nat) (ops : List Op) :
     ∀ (w : Wal) (s : Spec), Inv H S w s → (∀ op ∈ ops, op.wf) → s.seq + ops.length < 2^64 →
@@ -578,7 +588,10 @@ theorem C05_refines (H : Bytes → Bytes) (hH : ∀ b, (H b).length = 32) (S : N
           simp only [List.length_cons]
           show (Spec.run S (s0.step S o) os).seq ≤ _
           omega
-      simpa [Spec.init, Spec.seq] using this ops Spec.init
+      have h := this ops Spec.init
+      have h0 : Spec.init.seq = 0 := rfl
+      show (Spec.run S Spec.init ops).seq ≤ ops.length
+      omega
     constructor
     · intro hacc
       obtain ⟨w', e, _⟩ := append_ok H hH S w s hinv p hp (by omega) hacc
@@ -605,7 +618,6 @@ theorem C05_reopen (H : Bytes → Bytes) (hH : ∀ b, (H b).length = 32) (S : Na
   have hinv : Inv H S w s := C05_inv H hH S ops hwf hlen
   have hS := hinv.hS
   have e := open_inv H hH S w s hinv ro'
-  rw [hS] at e
   refine ⟨e, ?_, rfl⟩
   -- the reopened state has the same layout; `pending_records` on it is again exact
   have hS' : w'.S = S := hS
@@ -642,6 +654,34 @@ theorem C05_no_resurrect (H : Bytes → Bytes) (hH : ∀ b, (H b).length = 32) (
   have := hinv.oseq r hr
   omega
 
+/-- **C05_stats** — what `stats()` reports in any reachable state: `pending_bytes` is exactly the
+    total size (48-byte header + payload) of the accepted appends since the last checkpoint,
+    `sequence` is the checkpoint sequence plus their number, and the cursors stay inside the region. -/
+theorem C05_stats (H : Bytes → Bytes) (hH : ∀ b, (H b).length = 32) (S : Nat) (ops : List Op)
+    (hwf : ∀ op ∈ ops, op.wf) (hlen : ops.length < 2^64) :
+    let w := run H (init S) ops
+    w.S = S ∧ w.region.length = S ∧
+    w.pend = ((pendingSpec S ops).map (fun p => ENTRY_HEADER_SIZE + p.length)).sum ∧
+    w.seq = w.ckseq + (pendingSpec S ops).length ∧
+    w.pend ≤ w.wh ∧ w.wh ≤ S := by
+  intro w
+  have hinv := C05_inv H hH S ops hwf hlen
+  have hfit := hinv.layout.fit
+  have hwh := hinv.wh
+  have hp := hinv.pend
+  refine ⟨hinv.hS, hinv.layout.len, ?_, ?_, ?_, ?_⟩
+  · show w.pend = _
+    rw [hp]
+    simp only [pendingSpec, sizeSum, List.map_map]
+    rfl
+  · show w.seq = _
+    rw [hinv.seq, hinv.ckseq]
+    simp [pendingSpec]
+  · show w.pend ≤ w.wh
+    rw [hp, hwh]; simp
+  · show w.wh ≤ S
+    rw [hwh]; exact hfit
+
 /-- the same for ANY state (reachable or not): `pending_records` filters by the checkpoint sequence -/
 theorem C05_no_resurrect_any (H : Bytes → Bytes) (w w' : Wal) (rs : List Rec)
     (h : pendingRecords H w = .ok (w', rs)) : ∀ r ∈ rs, w.ckseq < r.seq := by
@@ -674,16 +714,31 @@ def p10 : Bytes := [1, 2, 3, 4, 5, 6, 7, 8, 9, 10]
     stops 42 bytes before the region end, the sentinel jumps to offset 0 over the record just
     written, and the scan returns no record: the pending record is lost. -/
 theorem C05_regression_unfixed :
-    (okOf (appendOld toyH (init 100) p10)).map
-        (fun x => (x.2, x.1.pend, okOf (scan toyH 100 x.1.region), okOf (pendingRecords toyH x.1) |>.map (·.2)))
-      = some (1, 58, some ([], 0), some []) := by
+    let r := okOf (appendOld toyH (init 100) p10)
+    r.map (·.2) = some 1 ∧ r.map (·.1.pend) = some 58 ∧ r.map (·.1.wh) = some 0 ∧
+    r.map (fun x => okOf (scan toyH 100 x.1.region)) = some (some ([], 0)) ∧
+    r.map (fun x => (okOf (pendingRecords toyH x.1)).map (·.2)) = some (some []) := by
   decide +kernel
 
 /-- … and the repaired rule keeps it -/
 theorem C05_regression_fixed :
-    (okOf (append toyH (init 100) p10)).map
-        (fun x => (x.2, x.1.pend, okOf (scan toyH 100 x.1.region), okOf (pendingRecords toyH x.1) |>.map (·.2)))
-      = some (1, 58, some ([{ seq := 1, payload := p10 }], 58), some [{ seq := 1, payload := p10 }]) := by
+    let r := okOf (append toyH (init 100) p10)
+    r.map (·.2) = some 1 ∧ r.map (·.1.pend) = some 58 ∧ r.map (·.1.wh) = some 58 ∧
+    r.map (fun x => okOf (scan toyH 100 x.1.region))
+      = some (some ([{ seq := 1, payload := p10 }], 58)) ∧
+    r.map (fun x => (okOf (pendingRecords toyH x.1)).map (·.2))
+      = some (some [{ seq := 1, payload := p10 }]) := by
+  decide +kernel
+
+def errOf {ε α : Type} : Except ε α → Option ε
+  | .ok _ => none
+  | .error e => some e
+
+/-- why histories must append non-empty payloads (`Op.wf`): an empty payload is accepted and written
+    with `len = 0`, which the scan reports as corruption at that offset (not part of C05's claim) -/
+theorem C05_empty_payload_corrupts :
+    (okOf (append toyH (init 100) [])).map (fun x => errOf (scan toyH 100 x.1.region))
+      = some (some (.corrupt 0)) := by
   decide +kernel
 
 /-! ### non-vacuity: a concrete history (S = 160: two appends, checkpoint, wrap, refusal, reopen) -/
@@ -699,6 +754,10 @@ def demoOps : List Op :=
 /-- the hypotheses of the main theorems hold for the demo history -/
 example : (∀ op ∈ demoOps, op.wf) ∧ demoOps.length < 2^64 ∧ ∀ b, (toyH b).length = 32 :=
   ⟨by decide, by decide, toyH_length⟩
+
+/-- the main theorems instantiate on it -/
+example := C05_refines toyH toyH_length 160 demoOps (by decide) (by decide)
+example := C05_reopen toyH toyH_length 160 demoOps (by decide) (by decide) false
 
 /-- the history exercises: acceptance ×2, checkpoint, wrap to offset 0 (68+68+78 > 160),
     refusal ("full": wrapping with pending records), reopen -/
